@@ -97,7 +97,7 @@ def rule_gain(repo: Repo, rep: Report) -> int:
     draws = [c for c in ast.walk(fi.node) if isinstance(c, ast.Call) and call_name(c) == "torch.randn"]
     for c in draws:
         ok = len(c.args) >= 2 and unparse(c.args[0]) == "batch_size" and unparse(c.args[1]) == "num_blocks"
-        rep.check(ok, "BLOCKS", fi, f"draw: {unparse(c)}", "one independent draw per batch item and coherence block", "coefficients are not drawn with shape (batch_size, num_blocks)", node=c)
+        rep.shape(ok, len(c.args) >= 2 and (unparse(c.args[0]) in ("1", "num_blocks") or unparse(c.args[1]) in ("1", "seq_length", "batch_size")), "BLOCKS", fi, f"draw: {unparse(c)}", "one independent draw per batch item and coherence block", "coefficients are not drawn with shape (batch_size, num_blocks)", node=c)
         n += 1
     rep.floor("fading draws", len(draws), 6)
     nb = [s for s in stmts_of(fi.body) if isinstance(s, ast.Assign) and unparse(s.targets[0]) == "num_blocks"]
@@ -126,11 +126,11 @@ def rule_expand(repo: Repo, rep: Report) -> int:
     if stores:
         for s in stores:
             ok = match(s, "h_expanded[_B] = h[_B, block_indices]") is not None
-            rep.check(ok, "BLOCKS", fi, f"expansion: {unparse(s)}", "each batch item is expanded from its own coefficients", "a row is not expanded from its own coefficients by block index", node=s)
+            rep.shape(ok, match(s, "h_expanded[_B] = h[_C, block_indices]") is not None, "BLOCKS", fi, f"expansion: {unparse(s)}", "each batch item is expanded from its own coefficients", "a row is not expanded from its own coefficients by block index", node=s)
             n += 1
         loops = [s for s in stmts_of(fi.body) if isinstance(s, ast.For)]
         for lp in loops:
-            rep.check(unparse(lp.iter) == "range(batch_size)", "BLOCKS", fi, f"for {unparse(lp.target)} in {unparse(lp.iter)}", "all batch items", "not all batch items are expanded", node=lp)
+            rep.shape(unparse(lp.iter) in ("range(batch_size)", "range(h.shape[0])", "range(h.size(0))"), isinstance(lp.iter, ast.Call) and call_name(lp.iter) == "range" and (len(lp.iter.args) != 1 or isinstance(lp.iter.args[0], (ast.BinOp, ast.Constant))), "BLOCKS", fi, f"for {unparse(lp.target)} in {unparse(lp.iter)}", "all batch items", "not all batch items are expanded", node=lp)
             n += 1
     else:
         rets = returns_of(fi.node)
@@ -147,7 +147,7 @@ def rule_expand(repo: Repo, rep: Report) -> int:
             n += 1
     rep.floor("block index definitions or vectorised expansion", len(bi) + (0 if stores else 1), 1)
     rets = returns_of(fi.node)
-    rep.check(len(rets) == 1 and unparse(rets[0].value) in ("h_expanded",) or not stores, "BLOCKS", fi, f"returns {unparse(rets[0].value) if rets else '?'}", "the expanded coefficients", "expansion result is not returned")
+    rep.shape(len(rets) == 1 and unparse(rets[0].value) in ("h_expanded",) or not stores, len(rets) == 1 and unparse(rets[0].value) == "h", "BLOCKS", fi, f"returns {unparse(rets[0].value) if rets else '?'}", "the expanded coefficients", "expansion result is not returned")
     return n + 1
 
 
@@ -176,7 +176,7 @@ def rule_forward(repo: Repo, rep: Report) -> int:
     # real inputs are promoted to complex with zero imaginary part
     prom = [s for s in stmts_of(fi.body) if isinstance(s, ast.If) and unparse(s.test) == "not torch.is_complex(x)"]
     okp = len(prom) == 1 and len(prom[0].body) == 1 and match(prom[0].body[0], "x = torch.complex(x, torch.zeros_like(x))") is not None
-    rep.check(okp, "FORWARD", fi, f"real input promotion: {unparse(prom[0].body[0]) if prom else '(none)'}", "real signal becomes x + 0j", "real inputs are not promoted as x + 0j", node=prom[0] if prom else fi.node)
+    rep.shape(okp, False, "FORWARD", fi, f"real input promotion: {unparse(prom[0].body[0]) if prom else '(none)'}", "real signal becomes x + 0j", "real inputs are not promoted as x + 0j", node=prom[0] if prom else fi.node)
     n += 1
     # generated path: h = expand(generate(batch, L, device), L)
     atoms = {"is_1d": False, "len(x.shape) > 2": False, "len(original_shape) > 2": False, "csi is not None": False, "noise is not None": True, "not torch.is_complex(x)": False}
